@@ -57,12 +57,14 @@ pub fn phases(prop: &str, tier: Tier) -> Vec<Phase> {
             Phase { name: "foreign-seeded", units: if q { 300 } else { 30_000 }, seeded: true },
         ],
         "C02" => vec![
+            Phase { name: "c02-user-shape", units: 1, seeded: false },
             Phase { name: "rt-grid", units: 13, seeded: false },
             Phase { name: "rt-large", units: if q { 7 } else { 8 }, seeded: false },
             Phase { name: "rt-seeded", units: if q { 1500 } else { 150_000 }, seeded: true },
             Phase { name: "wfault-c02", units: if q { 1500 } else { 150_000 }, seeded: true },
         ],
         "C04" => vec![
+            Phase { name: "c02-user-shape", units: 1, seeded: false },
             Phase { name: "rt-grid", units: 13, seeded: false },
             Phase { name: "rt-large", units: if q { 7 } else { 8 }, seeded: false },
             Phase { name: "rt-seeded", units: if q { 1500 } else { 150_000 }, seeded: true },
@@ -96,6 +98,7 @@ pub fn phases(prop: &str, tier: Tier) -> Vec<Phase> {
             Phase { name: if q { "c10-sweep3" } else { "c10-sweep5" }, units: 13, seeded: false },
             Phase { name: "c10-user-shape", units: 13, seeded: false },
             Phase { name: "c10-long", units: if q { 1 } else { 2 }, seeded: false },
+            Phase { name: "c10-bulk-lazy", units: 1, seeded: false },
             Phase { name: "hw-seeded", units: if q { 1000 } else { 150_000 }, seeded: true },
             Phase { name: if q { "pair-sweep3" } else { "pair-sweep5" }, units: 13, seeded: false },
             Phase { name: "pair-seeded", units: if q { 300 } else { 40_000 }, seeded: true },
@@ -115,11 +118,11 @@ pub fn phases(prop: &str, tier: Tier) -> Vec<Phase> {
             Phase { name: "wfault-c02", units: if q { 1500 } else { 150_000 }, seeded: true },
         ],
         "C07" => vec![
-            Phase { name: "ladder", units: 15, seeded: false },
+            Phase { name: "ladder", units: 16, seeded: false },
             Phase { name: "corrupt", units: if q { 192 } else { 40_000 }, seeded: true },
         ],
         "C17" => vec![
-            Phase { name: "ladder", units: 15, seeded: false },
+            Phase { name: "ladder", units: 16, seeded: false },
             Phase { name: "corrupt", units: if q { 128 } else { 30_000 }, seeded: true },
         ],
         "C13" => vec![
@@ -215,6 +218,8 @@ pub fn run_unit(prop: &str, phase: &str, unit: u64, seed: u64, _tier: Tier, ctx:
         "c12-big-file" => crate::fam_histw::user_unit(3 + unit, ctx, ctl),
         "c09-size-ladder" => crate::fam_histw::user_unit(5, ctx, ctl),
         "c12-stderr-gone" => crate::fam_histw::user_unit(6, ctx, ctl),
+        "c02-user-shape" => crate::fam_histw::user_unit(7, ctx, ctl),
+        "c10-bulk-lazy" => crate::fam_histw::user_unit(8, ctx, ctl),
         "c10-user-shape" => crate::fam_histw::fake_unit(unit, ctx, ctl),
         "c10-long" => crate::fam_histw::c10_long_unit(unit, ctx, ctl),
         "c10-sweep3" => crate::fam_histw::c10_sweep_unit(unit, 3, ctx, ctl),
@@ -252,13 +257,13 @@ pub fn meta(prop: &str) -> PropMeta {
     match prop {
         "C01" | "C02" | "C04" | "C18" => PropMeta {
             level: "exploration",
-            rule: "rt-grid: 13 types x parts 1..=6 x points/part 1..=8 x {Direct, BufWriter(7), BufWriter(8192), write-back layer (committed on flush only)} x {with,without shx}, enumerated; rt-large: files of 1023..10000 records, shapes of 1023..2049 parts and of 1023..8193, 65535..70000, 2^17+5, 2^18+5 (thorough: 2^20+5) points per part, around the readers' internal limits and powers of two a block-wise writer may use; rt-seeded: one seeded scenario per run (type, 0..40 shapes via public constructors, swarm-drawn float classes incl. +-0, subnormals, +-inf, sentinels, no-data neighbourhood, NaN in Z/M; finalize placement; ending by drop / finalize+drop / write_shapes; writer and reader stacks; chunk/EINTR schedules on all four devices; by-path routes over pre-existing longer files in 1/16 of the runs). every file is read back through iter_shapes / iter_shapes_as / read / read_as / random access / the Iterator adaptors nth(1) + step_by(2), with and without index; wfault-c02 (C02 only): seeded workloads with finalize calls anywhere (plain or retried) x every device operation of every finalize failed once on either file - the file a later successful finalize or the drop leaves behind is judged by the strict decoder. A run is non-trivial if it wrote at least one shape; distinct = distinct (type, per-shape part-length signature, writer stack, call pattern, reader stack) tuples by hash. In 1/8 of the seeded runs the (empty) destinations are handed to the writer at a non-zero position. rt-large also writes single parts / multipoints of 65535..70000 points (Z and M types). A quarter of the multi-vertex shapes reach the writer as a Clone::clone() of the constructed value or as another shape overwritten with Clone::clone_from(). After the last explicit finalize of a history the bytes the destinations hold at that moment (below any buffer, the writer still alive) are read back through all routes as well. Every file is also read through iter_shapes().last(). C04 and C18 additionally run c03-sweep and foreign-seeded: every shape read from a foreign file (empty parts, one-point lines, zero parts) is written back through ShapeWriter - announced size = bytes emitted = stored content length, index entries address the records, the rewritten file reads back as what was read. rt-large also writes files of 65535, 65536, 65537, 70000 and 131072 records whose last shape alone holds the extremes. By-path routes name the .shp with a .shp / .SHP / .Shp extension. Every file is also counted with iter_shapes().count() and iterated again afterwards: what that second iteration yields must not depend on the index (C04). c18-user-shape also writes one user-defined record of 2 GiB - 1 MiB, 2 GiB and 3 GiB to sparse sinks (content length in the record header and in the index entry). rt-grid also writes polygons with a hole of side 2^-30, 2^-20, 2^-10 (exact area tiny, not zero) declared inner and outer in both orientations. write_shapes is handed a Vec or a lazy iterator whose size_hint lower bound is 0. Ring roles are judged wherever the exact signed area (integer arithmetic on the coordinates' own binary scale) is not zero; differences on rings whose double-precision shoelace sum itself rounds to zero or to the other sign form the open known finding C01/ring-role-rounding. A quarter of the by-path runs name their files without a directory component. c18-big-emit: one Multipoint of 2^26 + 3 points (thorough also a MultipointM of 2^26 + 5) emitted into counting sinks. rt-large also writes, for each of the 10 multi-vertex types, a part of 2^16 + 7 points followed by a small record. A tenth of the seeded writer stacks is the write-back layer. C04 also runs wfault-c02 (histories in which a finalize failed once, ended by drop, by finalize or by the bulk write_shapes on the same writer): every index entry, read on its own, points at bytes of the .shp that are the header of the record of that rank. C18 also runs wfault-manyparts: shapes of 1025 and 2049 parts written straight to the devices with every one of the first 1200 and last 200 operations of each call (and every seventh in between) failing once or persistently: whenever a write call reports success, the bytes that reached the .shp during the call are record header, type code and exactly the announced size.",
+            rule: "rt-grid: 13 types x parts 1..=6 x points/part 1..=8 x {Direct, BufWriter(7), BufWriter(8192), write-back layer (committed on flush only)} x {with,without shx}, enumerated; rt-large: files of 1023..10000 records, shapes of 1023..2049 parts and of 1023..8193, 65535..70000, 2^17+5, 2^18+5 (thorough: 2^20+5) points per part, around the readers' internal limits and powers of two a block-wise writer may use; rt-seeded: one seeded scenario per run (type, 0..40 shapes via public constructors, swarm-drawn float classes incl. +-0, subnormals, +-inf, sentinels, no-data neighbourhood, NaN in Z/M; finalize placement; ending by drop / finalize+drop / write_shapes; writer and reader stacks; chunk/EINTR schedules on all four devices; by-path routes over pre-existing longer files in 1/16 of the runs). every file is read back through iter_shapes / iter_shapes_as / read / read_as / random access / the Iterator adaptors nth(1) + step_by(2), with and without index; wfault-c02 (C02 only): seeded workloads with finalize calls anywhere (plain or retried) x every device operation of every finalize failed once on either file - the file a later successful finalize or the drop leaves behind is judged by the strict decoder. A run is non-trivial if it wrote at least one shape; distinct = distinct (type, per-shape part-length signature, writer stack, call pattern, reader stack) tuples by hash. In 1/8 of the seeded runs the (empty) destinations are handed to the writer at a non-zero position. rt-large also writes single parts / multipoints of 65535..70000 points (Z and M types). A quarter of the multi-vertex shapes reach the writer as a Clone::clone() of the constructed value or as another shape overwritten with Clone::clone_from(). After the last explicit finalize of a history the bytes the destinations hold at that moment (below any buffer, the writer still alive) are read back through all routes as well. Every file is also read through iter_shapes().last(). C04 and C18 additionally run c03-sweep and foreign-seeded: every shape read from a foreign file (empty parts, one-point lines, zero parts) is written back through ShapeWriter - announced size = bytes emitted = stored content length, index entries address the records, the rewritten file reads back as what was read. rt-large also writes files of 65535, 65536, 65537, 70000 and 131072 records whose last shape alone holds the extremes. By-path routes name the .shp with a .shp / .SHP / .Shp extension. Every file is also counted with iter_shapes().count() and iterated again afterwards: what that second iteration yields must not depend on the index (C04). c18-user-shape also writes one user-defined record of 2 GiB - 1 MiB, 2 GiB and 3 GiB to sparse sinks (content length in the record header and in the index entry). rt-grid also writes polygons with a hole of side 2^-30, 2^-20, 2^-10 (exact area tiny, not zero) declared inner and outer in both orientations. write_shapes is handed a Vec or a lazy iterator whose size_hint lower bound is 0. Ring roles are judged wherever the exact signed area (integer arithmetic on the coordinates' own binary scale) is not zero; differences on rings whose double-precision shoelace sum itself rounds to zero or to the other sign form the open known finding C01/ring-role-rounding. A quarter of the by-path runs name their files without a directory component. c18-big-emit: one Multipoint of 2^26 + 3 points (thorough also a MultipointM of 2^26 + 5) emitted into counting sinks. rt-large also writes, for each of the 10 multi-vertex types, a part of 2^16 + 7 points followed by a small record. A tenth of the seeded writer stacks is the write-back layer. C04 also runs wfault-c02 (histories in which a finalize failed once, ended by drop, by finalize or by the bulk write_shapes on the same writer): every index entry, read on its own, points at bytes of the .shp that are the header of the record of that rank. C18 also runs wfault-manyparts: shapes of 1025 and 2049 parts written straight to the devices with every one of the first 1200 and last 200 operations of each call (and every seventh in between) failing once or persistently: whenever a write call reports success, the bytes that reached the .shp during the call are record header, type code and exactly the announced size. c02-user-shape (C02, C04): a caller's point-typed shape that keeps its contract but emits its bytes with Write::write_vectored, three records with a finalize after none / the first / the second / the third, with and without index: strict decoder, index check.",
             explanation: "Fault-free configuration of the simulator with must-be-masked transfer schedules: the real writer runs against simulated devices, the bytes are judged by an independent decoder and read back through every reading route of the real reader. Simulated time = device operations (logical_steps); the code under test has no clock.",
             exhaustive: false,
         },
         "C05" => PropMeta {
             level: "exploration",
-            rule: "rt-grid: 13 types x parts 1..=6 x points/part 1..=8 x {Direct, BufWriter(7), BufWriter(8192), write-back layer (committed on flush only)} x {with,without shx}, enumerated; rt-large: files of 1023..10000 records, shapes of 1023..2049 parts and of 1023..8193, 65535..70000, 2^17+5, 2^18+5 (thorough: 2^20+5) points per part, around the readers' internal limits and powers of two a block-wise writer may use; rt-seeded: one seeded scenario per run (type, 0..40 shapes via public constructors, swarm-drawn float classes incl. +-0, subnormals, +-inf, sentinels, no-data neighbourhood, NaN in Z/M; finalize placement; ending by drop / finalize+drop / write_shapes; writer and reader stacks; chunk/EINTR schedules on all four devices; by-path routes over pre-existing longer files in 1/16 of the runs). A run is non-trivial if it wrote at least one shape; distinct = distinct (type, per-shape part-length signature, writer stack, call pattern, reader stack) tuples by hash. hw-seeded: seeded writer histories (1..5 shapes, up to 12 calls, finalize anywhere, rejected writes) so that the extreme falls before/after an intermediate finalize; wfault-c05: seeded histories with a one-shot fault on the first device operation of a non-first write_shape (the call fails having transferred nothing), after which the history goes on. A quarter of the multi-vertex shapes reach the writer through Clone::clone() / Clone::clone_from(). rt-large (as for C01): incl. files of exactly 2^16 and 2^17 records whose last shape alone holds the extremes. c05-big-box: one Multipoint of 8 Mi + 2 and one Polyline of 8 Mi + 3 points (thorough: 16 Mi + 2, 4 Mi + 2, 2 Mi + 2), generated procedurally, the last vertex alone holding the maxima: carried box, record box, header box.",
+            rule: "rt-grid: 13 types x parts 1..=6 x points/part 1..=8 x {Direct, BufWriter(7), BufWriter(8192), write-back layer (committed on flush only)} x {with,without shx}, enumerated; rt-large: files of 1023..10000 records, shapes of 1023..2049 parts and of 1023..8193, 65535..70000, 2^17+5, 2^18+5 (thorough: 2^20+5) points per part, around the readers' internal limits and powers of two a block-wise writer may use; rt-seeded: one seeded scenario per run (type, 0..40 shapes via public constructors, swarm-drawn float classes incl. +-0, subnormals, +-inf, sentinels, no-data neighbourhood, NaN in Z/M; finalize placement; ending by drop / finalize+drop / write_shapes; writer and reader stacks; chunk/EINTR schedules on all four devices; by-path routes over pre-existing longer files in 1/16 of the runs). A run is non-trivial if it wrote at least one shape; distinct = distinct (type, per-shape part-length signature, writer stack, call pattern, reader stack) tuples by hash. hw-seeded: seeded writer histories (1..5 shapes, up to 12 calls, finalize anywhere, rejected writes) so that the extreme falls before/after an intermediate finalize; wfault-c05: seeded histories with a one-shot fault on the first device operation of a non-first write_shape (the call fails having transferred nothing), after which the history goes on. A quarter of the multi-vertex shapes reach the writer through Clone::clone() / Clone::clone_from(). rt-large (as for C01): incl. files of exactly 2^16 and 2^17 records whose last shape alone holds the extremes. c05-big-box: one Multipoint of 8 Mi + 2 and one Polyline of 8 Mi + 3 points (thorough: 16 Mi + 2, 4 Mi + 2, 2 Mi + 2), generated procedurally, the last vertex alone holding the maxima: carried box, record box, header box. c05-big-box also hands 10 multi-part types x 12 degenerate part lists (an empty first, middle or last part, one-point parts, nothing but an empty part) to the public constructors, vertices away from the origin: where the constructor accepts the list (it refuses most by panicking, which is not judged), the box of the shape, of its record and of the header are the extremes of its vertices.",
             explanation: "Fault-free configuration of the simulator with must-be-masked transfer schedules: the real writer runs against simulated devices, the bytes are judged by an independent decoder and read back through every reading route of the real reader. Simulated time = device operations (logical_steps); the code under test has no clock. C05 oracle: independent min/max (compared with ==) over the captured vertices against the constructed box, the record box, header bytes 36..100 and the reader\'s header; M range judged only when every measure is real data; no NaN runs.",
             exhaustive: false,
         },
@@ -300,7 +305,7 @@ pub fn meta(prop: &str) -> PropMeta {
         },
         "C10" => PropMeta {
             level: "exploration",
-            rule: "c10-sweep: all 13x12 ordered (file type, offered type) pairs x all histories over {write a, write b, finalize} that start with a write, up to length 3 (quick) / 5 (thorough) x every position of the rejected call, enumerated completely; c10-user-shape: for each file type, a user-defined EsriShape (the trait is public) of each of the 13 other type codes - NullShape included, which no built-in shape has - announcing sizes from 0 to u64::MAX; hw-seeded: seeded longer histories; pair-sweep / pair-seeded: the complete writer (the rejected pair must not touch the .dbf either). distinct = distinct (type, call pattern, index, stack) tuples. pair-sweep also runs all histories up to length 3 over {good pair a, good pair b, rejected shape} through a complete Writer built over a ShapeWriter that has already written a shape, compared with the same history without the rejected calls. Odd-length histories over a used ShapeWriter end with write_shapes_and_records offered two pairs of another type (refused as a whole). c10-long: 2100 (thorough also 70000) accepted records with a rejected write after every one of them.",
+            rule: "c10-sweep: all 13x12 ordered (file type, offered type) pairs x all histories over {write a, write b, finalize} that start with a write, up to length 3 (quick) / 5 (thorough) x every position of the rejected call, enumerated completely; c10-user-shape: for each file type, a user-defined EsriShape (the trait is public) of each of the 13 other type codes - NullShape included, which no built-in shape has - announcing sizes from 0 to u64::MAX; hw-seeded: seeded longer histories; pair-sweep / pair-seeded: the complete writer (the rejected pair must not touch the .dbf either). distinct = distinct (type, call pattern, index, stack) tuples. pair-sweep also runs all histories up to length 3 over {good pair a, good pair b, rejected shape} through a complete Writer built over a ShapeWriter that has already written a shape, compared with the same history without the rejected calls. Odd-length histories over a used ShapeWriter end with write_shapes_and_records offered two pairs of another type (refused as a whole). c10-long: 2100 (thorough also 70000) accepted records with a rejected write after every one of them. c10-bulk-lazy: the consuming bulk write_shapes on a writer that holds a record of another type, handed a lazy iterator announcing usize::MAX (endless), 2^40, 2^31 and 0 further shapes: rejected with the mismatch error naming both types, the files left are those of write + drop.",
             explanation: "The rejected call must return MismatchShapeType{file type, offered type}, have an empty device-event range, and the final files must equal those of the history with the rejected calls deleted.",
             exhaustive: true,
         },
@@ -318,7 +323,7 @@ pub fn meta(prop: &str) -> PropMeta {
         },
         "C07" | "C17" => PropMeta {
             level: "fault_enumeration",
-            rule: "corrupt: one unit = one seeded base file from the real writer (any type, 1..4 records, 1..3 parts) with its .shx and a valid .dbf; enumerated per base file: every 32-bit field of .shp and .shx (header length/version/type, record number/length/type, part and point counts, every part offset, every patch kind, index length/type, every index offset/length) x ~25 boundary values (0, +-1, i32::MIN/MAX, 2^27..2^30 and neighbours, doubles/halves of the original), every truncation length of both files, extensions by 1/7/8/100 bytes and by a copy of the records; sampled per base file: 150 field pairs, 150 bit flips, 40 garbage bodies behind a valid file code. ladder: for every multi-vertex type and the index, declared counts 10^3..2^31-1 (incl. 2^27, 2^28, 2^29 whose byte sizes wrap 32 bits) with mutually consistent record/file lengths and either no data behind or exactly 1024/1025/2048/5000 elements (4096/4097/9000 index entries) really present, and for the multipart types counts that need no x,y at all (the only part starts at, or one before, the end of the points; no part), so that the Z / M arrays are reached with nothing read; plus valid fully backed files of unusual structure (3000 two-point parts, 2049 patches, 1500 rings, 8193 points, 5000 records). Every case drives ~45 reader calls (open, header, count, iterate generic/typed drained, size_hint, read_nth and seek at 0,1,n-1,n,usize::MAX each followed by iteration, read, read_as, complete Reader iterate/seek/read). distinct = distinct (type, field id + value class, outcome signature) triples. The ladder also holds each declared count stored behind a small complete record and listed first by the index (an indexed iteration has to seek), and a Point file of 400 000 null records followed by one point. Indexes declaring unbacked entries also stand next to a .shp header declaring room for as many records. Every case also drives nth(usize::MAX) after one item, skip(usize::MAX), step_by(usize::MAX) and last() on readers that are not at their start. One case in 64 is also read by path under names that are not valid UTF-8, without and with an index next to it. The complete Reader is also driven without index (read, read_as), and the ladder holds a .dbf whose header declares 10^3..2^32-1 rows with one present. The ladder also holds, for every multi-vertex type, a shape without any point whose stored box and ranges are all NaN.",
+            rule: "corrupt: one unit = one seeded base file from the real writer (any type, 1..4 records, 1..3 parts) with its .shx and a valid .dbf; enumerated per base file: every 32-bit field of .shp and .shx (header length/version/type, record number/length/type, part and point counts, every part offset, every patch kind, index length/type, every index offset/length) x ~25 boundary values (0, +-1, i32::MIN/MAX, 2^27..2^30 and neighbours, doubles/halves of the original), every truncation length of both files, extensions by 1/7/8/100 bytes and by a copy of the records; sampled per base file: 150 field pairs, 150 bit flips, 40 garbage bodies behind a valid file code. ladder: for every multi-vertex type and the index, declared counts 10^3..2^31-1 (incl. 2^27, 2^28, 2^29 whose byte sizes wrap 32 bits) with mutually consistent record/file lengths and either no data behind or exactly 1024/1025/2048/5000 elements (4096/4097/9000 index entries) really present, and for the multipart types counts that need no x,y at all (the only part starts at, or one before, the end of the points; no part), so that the Z / M arrays are reached with nothing read; plus valid fully backed files of unusual structure (3000 two-point parts, 2049 patches, 1500 rings, 8193 points, 5000 records). Every case drives ~45 reader calls (open, header, count, iterate generic/typed drained, size_hint, read_nth and seek at 0,1,n-1,n,usize::MAX each followed by iteration, read, read_as, complete Reader iterate/seek/read). distinct = distinct (type, field id + value class, outcome signature) triples. The ladder also holds each declared count stored behind a small complete record and listed first by the index (an indexed iteration has to seek), and a Point file of 400 000 null records followed by one point. Indexes declaring unbacked entries also stand next to a .shp header declaring room for as many records. Every case also drives nth(usize::MAX) after one item, skip(usize::MAX), step_by(usize::MAX) and last() on readers that are not at their start. One case in 64 is also read by path under names that are not valid UTF-8, without and with an index next to it. The complete Reader is also driven without index (read, read_as), and the ladder holds a .dbf whose header declares 10^3..2^32-1 rows with one present. The ladder also holds, for every multi-vertex type, a shape without any point whose stored box and ranges are all NaN. ladder unit 16: the environment as input - a small valid data set opened by path (ShapeReader::from_path, read_shapes, Reader::from_path; without its .shx, with an upper-case .SHX, with its .shx) in a directory holding 20 000 unrelated files: the memory requested is bounded by the bytes of the data set.",
             explanation: "Each reader call runs under catch_unwind (overflow checks and debug assertions on) and between begin/end of the counting allocator; iterators are drained through an item cap of (len(shp)+len(shx))/4+16. Workers run under an address-space limit with a watchdog: a worker that dies or stalls is pinpointed to the case and reported as abort/hang. C17 bound per call: peak live bytes and largest single request <= 64 x input bytes + 64 KiB.",
             exhaustive: false,
         },
